@@ -24,7 +24,7 @@ Theorem C10_listing_total :
   forall off sp fixed f flt sel, existing_rot off sp fixed f flt sel <> None.
 Proof.
   intros off sp fixed f flt sel. unfold existing_rot.
-  assert (F : forall flt' sfx, filter_files off (fsfx sp) fixed (related_files f fixed) flt' sfx <> None).
+  assert (F : forall flt' sfx, filter_files off (fsfx sp) fixed (related_files f (fsfx sp) fixed) flt' sfx <> None).
   { intros flt' sfx. unfold filter_files. apply filter_opt_total. intros n.
     destruct (infix_candidate (fsfx sp) sfx fixed n); discriminate. }
   destruct (sel_plain sel), (sel_gz sel), (sel_rcur sel), (sel_custom sel);
